@@ -289,7 +289,7 @@ const (
 )
 
 func ruleORD3(w *World, r *Report) {
-	r.Doc("ORD-3", "a file that is later renamed over a durable file is opened truncating/exclusive or removed first on every path", 2)
+	r.Doc("ORD-3", "a file that is later renamed over a durable file is opened truncating/exclusive or removed first on every path", 1)
 	// instances: in pkg/engine, any value passed as the source of os.Rename / ReplaceWith
 	n := 0
 	for _, fi := range w.ModuleFuncs() {
@@ -565,7 +565,7 @@ func flowsToWriteLoop(v ssa.Value, write *types.Func) bool {
 // ---------- ORD-5 drain before a durability promise ----------
 
 func ruleORD5(w *World, r *Report) {
-	r.Doc("ORD-5", "in LazyAOFWriter.run the control arms that promise durability (Flush, Sync, Close, EndSnapshotMode) drain writeCh completely (non-blocking select until empty) before their effect", 4)
+	r.Doc("ORD-5", "in LazyAOFWriter.run the control arms that promise durability (Flush, Sync, Close, EndSnapshotMode) drain writeCh completely (non-blocking select until empty) before their effect", 3)
 	fi := w.Func("pkg/persistence", "LazyAOFWriter.run")
 	if fi == nil {
 		r.Und("ORD-5", "anchor:LazyAOFWriter.run", "", "anchor lost")
@@ -1224,7 +1224,7 @@ func ruleORD7b(w *World, r *Report) {
 // ---------- ORD-1b: a snapshot that reports success has written and installed the snapshot ----------
 
 func ruleORD1b(w *World, r *Report) {
-	r.Doc("ORD-1b", "SaveSnapshot reports success only after saveSnapshotLocked ran, and that only after the snapshot was renamed into place (callers such as VImportCommit rely on it as their only durability step)", 2)
+	r.Doc("ORD-1b", "SaveSnapshot reports success only after saveSnapshotLocked ran, and that only after the snapshot was renamed into place (callers such as VImportCommit rely on it as their only durability step)", 1)
 	ss := w.Func("pkg/engine", "Engine.SaveSnapshot")
 	if ss == nil {
 		r.Und("ORD-1b", "anchor:Engine.SaveSnapshot", "", "anchor lost")
@@ -1395,7 +1395,7 @@ func ruleORD4b(w *World, r *Report) {
 
 // ruleORDdel: the internal id of a vector is resolved BEFORE the index forgets it.
 func ruleORDdel(w *World, r *Report) {
-	r.Doc("ORD-del", "wherever the engine deletes a vector from an index and then drops its metadata (live VDelete, and the replay of deletions onto a snapshot-restored index), the internal id is resolved before Index.Delete — which removes the external→internal mapping — and DeleteMetadata follows on the path where the id was found; the GRD-scan clause for the caller: resyncAOF is always started at the last valid offset itself", 2)
+	r.Doc("ORD-del", "wherever the engine deletes a vector from an index and then drops its metadata (live VDelete, and the replay of deletions onto a snapshot-restored index), the internal id is resolved before Index.Delete — which removes the external→internal mapping — and DeleteMetadata follows on the path where the id was found; the GRD-scan clause for the caller: resyncAOF is always started at the last valid offset itself", 1)
 	del := w.FuncObj("pkg/core/hnsw", "Index.Delete")
 	n := 0
 	for _, fi := range w.ModuleFuncs() {
@@ -1485,7 +1485,7 @@ func (w *World) journalingOps() []*FuncInfo {
 //	(b) each protocol calls gate.drain after BeginSnapshotMode succeeded and before it reads any state of pkg/core;
 //	(c) drain can block (it has a wait), enter and drain touch the same counters under the gate's lock.
 func ruleORD9(w *World, r *Report) {
-	r.Doc("ORD-9", "no acknowledged write falls between snapshot and log: every journaling operation runs journal+apply inside the engine's operation gate, and SaveSnapshot/RewriteAOF drain that gate after BeginSnapshotMode succeeded and before reading any pkg/core state", 19)
+	r.Doc("ORD-9", "no acknowledged write falls between snapshot and log: every journaling operation runs journal+apply inside the engine's operation gate, and SaveSnapshot/RewriteAOF drain that gate after BeginSnapshotMode succeeded and before reading any pkg/core state", 12)
 	jw := w.journalObj()
 	begin := w.FuncObj("pkg/persistence", "LazyAOFWriter.BeginSnapshotMode")
 	enter, leave, drain := w.FuncObj("pkg/engine", "opGate.enter"), w.FuncObj("pkg/engine", "opGate.leave"), w.FuncObj("pkg/engine", "opGate.drain")
@@ -1618,6 +1618,59 @@ func ruleORD9(w *World, r *Report) {
 		}
 		locks := findInstrs(fn, func(in ssa.Instruction) bool { return isCallTo(in, "sync", "Mutex.Lock") })
 		r.Cond(len(locks) > 0, "ORD-9", shortName(gf)+":under-gate-mutex", w.Pos(fn.Pos()), "works under the gate's mutex", shortName(gf)+" no longer takes the gate's mutex: the in-flight counters race and drain can miss an operation")
+	}
+	// leave wakes the waiting drain only for an operation of an EARLIER epoch: an operation that entered after the
+	// drain began (its command went to the shadow buffer) leaving must not end the wait for the older ones
+	if fn := w.SSAFunc(leave); fn != nil && len(fn.Params) >= 2 {
+		tok := fn.Params[len(fn.Params)-1]
+		isWake := func(in ssa.Instruction) bool {
+			if c, ok := isBuiltinCall(in, "close"); ok && c != nil {
+				return true
+			}
+			if _, ok := in.(*ssa.Send); ok {
+				return true
+			}
+			return isCallTo(in, "sync", "Cond.Broadcast") || isCallTo(in, "sync", "Cond.Signal")
+		}
+		isEpochCmp := func(in ssa.Instruction) bool {
+			bo, ok := in.(*ssa.BinOp)
+			if !ok || (bo.Op != token.NEQ && bo.Op != token.EQL && bo.Op != token.LSS && bo.Op != token.GTR) {
+				return false
+			}
+			isTok := func(v ssa.Value) bool { return v == ssa.Value(tok) }
+			isEpoch := func(v ssa.Value) bool {
+				ld, ok := v.(*ssa.UnOp)
+				if !ok || ld.Op != token.MUL {
+					return false
+				}
+				fa, ok := ld.X.(*ssa.FieldAddr)
+				if !ok {
+					return false
+				}
+				_, f := structFieldName(fa.X.Type(), fa.Field)
+				return f == "epoch"
+			}
+			return (isTok(bo.X) && isEpoch(bo.Y)) || (isTok(bo.Y) && isEpoch(bo.X))
+		}
+		wakes := findInstrs(fn, isWake)
+		for i, wk := range wakes {
+			ww := wk
+			tgt := func(in ssa.Instruction) bool { return in == ww }
+			gv := func(in ssa.Instruction) ssa.Value { return in.(*ssa.BinOp) }
+			ok := false
+			// token != epoch (true edge), token == epoch (false edge), token < epoch (true edge)
+			if len(findInstrs(fn, isEpochCmp)) > 0 {
+				neq := func(in ssa.Instruction) bool { return isEpochCmp(in) && in.(*ssa.BinOp).Op != token.EQL }
+				eql := func(in ssa.Instruction) bool { return isEpochCmp(in) && in.(*ssa.BinOp).Op == token.EQL }
+				if len(findInstrs(fn, neq)) > 0 {
+					ok, _ = mustPassGuard(fn, tgt, neq, gv, true, nil)
+				}
+				if !ok && len(findInstrs(fn, eql)) > 0 {
+					ok, _ = mustPassGuard(fn, tgt, eql, gv, false, nil)
+				}
+			}
+			r.Cond(ok, "ORD-9", fmt.Sprintf("opGate.leave:wake#%d:only-for-an-earlier-epoch", i+1), w.Pos(wk.Pos()), "the waiting drain is woken only behind a comparison of the operation's epoch with the current one", "opGate.leave wakes the waiting drain for an operation of ANY epoch: a short write that entered after the snapshot began ends the wait while older operations — whose commands are about to be truncated — are still applying; the snapshot misses them and their log records are discarded")
+		}
 	}
 	if fn := w.SSAFunc(drain); fn != nil {
 		waits := findInstrs(fn, func(in ssa.Instruction) bool {
